@@ -58,6 +58,19 @@ def h_digest(ctx, n, long=0):
     ctx.check(m.GetHash() == ctx.dsha256(pre), 'digest == H(H(varstr(magic) || varstr(utf8(message))))')
 
 
+TRICKY = ['cafe\u0301', '\u2126', '\u1100\u1161\u11a8', 'A\u030a', '\ufb01', '\u00e9', 'x' * 70000, '\U0001f600\u200d']
+
+
+def h_digest_fixed(ctx, k):
+    """fixed texts that are not in a Unicode normal form (the symbolic family cannot steer a normaliser's tables): bytes signed are the plain UTF-8"""
+    SM = ctx.mod('bitcoin.signmessage')
+    msg = TRICKY[k]
+    m = SM.BitcoinMessage(msg)
+    pre = W.varbytes(ctx, ctx.B(MAGIC.encode())) + W.varbytes(ctx, ctx.B(msg.encode('utf-8')))
+    ctx.check(m.serialize() == pre, 'serialisation == varstr(magic) || varstr(utf8(message))')
+    ctx.check(m.GetHash() == ctx.dsha256(pre), 'digest == H(H(varstr(magic) || varstr(utf8(message))))')
+
+
 class _Key(object):
     """stand-in for wallet.CKey in the symbolic run (SignMessage only uses sign_compact and is_compressed)"""
 
@@ -98,12 +111,26 @@ def h_sign(ctx, compressed, mlen):
         ctx.check(not SM.VerifyMessage(addr, SM.BitcoinMessage(msg + '!'), sig), 'verify false for another message (real OpenSSL)')
 
 
-def h_verify(ctx, compressed, chain):
+def h_verify(ctx, compressed, chain, akind='p2pkh'):
     """VerifyMessage glue: true iff the key returned by recovery hashes to the given address"""
     SM = ctx.mod('bitcoin.signmessage')
     W_ = ctx.mod('bitcoin.wallet')
     ctx.select_chain(chain)
     if not ctx.symbolic:
+        # concrete twin: a genuine signature (real OpenSSL) verified against an address of the given kind carrying the signer's hash
+        msg = ctx.text('m', 2, 32, 126)
+        m = SM.BitcoinMessage(msg)
+        key = W_.CBitcoinSecret.from_secret_bytes(ctx.sha256(ctx.bytes('pub', 33 if compressed else 65)), compressed)
+        sig = SM.SignMessage(key, m)
+        h160 = ctx.hash160(bytes(key.pub))
+        addr = {'p2pkh': lambda: W_.P2PKHBitcoinAddress.from_bytes(h160), 'p2sh': lambda: W_.P2SHBitcoinAddress.from_bytes(h160),
+                'p2wpkh': lambda: W_.P2WPKHBitcoinAddress.from_bytes(0, h160)}[akind]()
+        got = SM.VerifyMessage(addr, m, sig)
+        if akind == 'p2pkh':
+            ctx.check(got, 'verify true iff recovered key hashes to the address')
+        else:
+            ctx.check(not got, 'verify false for an address of another kind carrying the same hash')
+        ctx.select_chain('mainnet')
         return
     msg = ctx.text('m', 2, 32, 126)
     m = SM.BitcoinMessage(msg)
@@ -122,21 +149,31 @@ def h_verify(ctx, compressed, chain):
     ctx.set_state('derive_pub', lambda secret, comp: pub)
     payload = ctx.bytes('addr_payload', 20)
     with P12._Patched(ctx):
-        addr = W_.P2PKHBitcoinAddress.from_bytes(payload)
+        if akind == 'p2pkh':
+            addr = W_.P2PKHBitcoinAddress.from_bytes(payload)
+        elif akind == 'p2sh':
+            addr = W_.P2SHBitcoinAddress.from_bytes(payload)
+        else:
+            addr = W_.P2WPKHBitcoinAddress.from_bytes(0, payload)
         got = SM.VerifyMessage(addr, m, sig)
     ctx.check(ctx.and_(seen.get('r') == rs[:32], seen.get('s') == rs[32:], seen.get('h') == m.GetHash(), seen.get('recid') == recid,
                        seen.get('compressed') == compressed), 'recovery is called with r, s, the message digest, the recovery id and the compression flag')
-    ctx.check(ctx.iff(got, ctx.hash160(pub) == payload), 'verify true iff recovered key hashes to the address')
+    if akind == 'p2pkh':
+        ctx.check(ctx.iff(got, ctx.hash160(pub) == payload), 'verify true iff recovered key hashes to the address')
+    else:
+        ctx.check(ctx.not_(got), 'verify false for an address of another kind carrying the same hash')
     ctx.select_chain('mainnet')
 
 
-HARNESSES = {'digest': h_digest, 'sign': h_sign, 'verify': h_verify}
+HARNESSES = {'digest_fixed': h_digest_fixed, 'digest': h_digest, 'sign': h_sign, 'verify': h_verify}
 
 
 def instances(tier):
     out = []
     for n in range(0, (3 if tier == 'quick' else 4) + 1):
         out.append(dict(h='digest', p=dict(n=n), max_seconds=1500))
+    for k in range(len(TRICKY)):
+        out.append(dict(h='digest_fixed', p=dict(k=k)))
     for ln in (252, 253, 300):
         out.append(dict(h='digest', p=dict(n=0, long=ln)))
     for comp in (True, False):
@@ -144,4 +181,6 @@ def instances(tier):
             out.append(dict(h='sign', p=dict(compressed=comp, mlen=ml)))
         for chain in ('mainnet', 'testnet', 'regtest'):
             out.append(dict(h='verify', p=dict(compressed=comp, chain=chain)))
+        for ak in ('p2sh', 'p2wpkh'):
+            out.append(dict(h='verify', p=dict(compressed=comp, chain='mainnet', akind=ak)))
     return out
